@@ -101,7 +101,28 @@ public:
             }
         } else {
             int n1 = (int)r.range(1, 22);
-            if (r.chance(3, 4)) {
+            if (r.chance(1, 8)) {
+                // a quiet history: nothing before the Reset makes the emulator itself store into DSP memory; the host only writes
+                // through the raw pointer it kept, pokes registers and mailboxes (optionally after an earlier Reset)
+                n1 = 0;
+                if (r.chance(1, 3))
+                    p.add("reset");
+                int q = (int)r.range(1, 5);
+                for (int i = 0; i < q; ++i) {
+                    switch (r.below(4)) {
+                    case 0:
+                    case 1:
+                        p.add("raww", {(s64)(r.chance(1, 2) ? r.below(0x4000) : 0x20000 + r.below(0x8000)), (s64)(1 + (r.next() & 0xFFFE))});
+                        break;
+                    case 2:
+                        p.add("send", {(s64)r.below(3), (s64)(r.next() & 0xFFFF)});
+                        break;
+                    default:
+                        p.add("trig", {(s64)(1u << (9 + r.below(7)))});
+                        break;
+                    }
+                }
+            } else if (r.chance(3, 4)) {
                 p.add("fw");
                 p.add("run", {(s64)r.range(0, 600)});
             }
